@@ -125,26 +125,32 @@ def relTasks (p : RawProj) : List RawTask :=
   p.tasks.map (fun t => { t with start := t.start.map (· - p.start), stop := t.stop.map (· - p.start) })
 
 /-- per-resource calendars: zone, hours (shift hours win over own hours) and leaves, each inherited -/
-def resCals (rs : List RawRes) : Array ResCal :=
-  let par := rs.map (·.parent)
-  let zone := inheritOpt par (rs.map (·.zone))
-  let hours := inheritOpt par (rs.map (·.hours))
-  let shift := inheritOpt par (rs.map (·.shift))
-  let leaves := inheritOpt par (rs.map (·.leaves))
-  (List.range rs.length).toArray.map (fun i =>
+def resCalsCore (par : List (Option Nat)) (zones : List (Option (List (Int × Int)))) (hours shifts : List (Option Hours))
+    (leaves : List (Option Intervals)) (n : Nat) : Array ResCal :=
+  let zone := inheritOpt par zones
+  let hrs := inheritOpt par hours
+  let shift := inheritOpt par shifts
+  let lvs := inheritOpt par leaves
+  (List.range n).toArray.map (fun i =>
     { zone := zone.getD i none,
-      hours := (match shift.getD i none with | some h => some h | none => hours.getD i none),
-      leaves := (leaves.getD i none).getD [] })
+      hours := (match shift.getD i none with | some h => some h | none => hrs.getD i none),
+      leaves := (lvs.getD i none).getD [] })
+
+def resCals (rs : List RawRes) : Array ResCal :=
+  resCalsCore (rs.map (·.parent)) (rs.map (·.zone)) (rs.map (·.hours)) (rs.map (·.shift)) (rs.map (·.leaves)) rs.length
 
 /-- date-free part of the environment -/
-def resDs (rs : List RawRes) : Array ResD :=
-  let eff := inheritOpt (rs.map (·.parent)) (rs.map (·.eff))
-  let resLim := rs.foldl (fun (acc : List (List Nat) × Nat) r =>
-      (acc.1 ++ [(List.range r.limits.length).map (· + acc.2)], acc.2 + r.limits.length)) ([], 0)
-  (rs.zipIdx).toArray.map (fun (r, i) =>
-    { parent := r.parent, leaf := !(rs.any (fun c => c.parent == some i)),
+def resDsCore (par : List (Option Nat)) (effs : List (Option Rat)) (limLens : List Nat) : Array ResD :=
+  let eff := inheritOpt par effs
+  let resLim := limLens.foldl (fun (acc : List (List Nat) × Nat) n =>
+      (acc.1 ++ [(List.range n).map (· + acc.2)], acc.2 + n)) ([], 0)
+  (par.zipIdx).toArray.map (fun (pr, i) =>
+    { parent := pr, leaf := !(par.any (fun c => c == some i)),
       eff := (match eff.getD i none with | some v => if v == 0 then 1 else v | none => 1),
       limits := resLim.1.getD i [] })
+
+def resDs (rs : List RawRes) : Array ResD :=
+  resDsCore (rs.map (·.parent)) (rs.map (·.eff)) (rs.map (·.limits.length))
 
 def taskDs (nResLimits : Nat) (ts : List RawTask) : Array TaskD :=
   let et := elabTasks ts
